@@ -41,6 +41,7 @@ func ruleGatesOf(withObserver bool) check.Rule {
 			p := m.Obj.Ro
 			info := p.TypesInfo
 			open, won := atomStatusOpen(info), atomCASWon(info)
+			h := newHeldDB(m)
 			// subscriberImpl
 			for _, fd := range methodsOf(p, "subscriberImpl") {
 				if fd.Body == nil {
@@ -72,8 +73,13 @@ func ruleGatesOf(withObserver bool) check.Rule {
 					if kind != 0 {
 						atom, what = won, "winning CompareAndSwap(&status, 0, k)"
 					}
-					if guardedBy(fd.Body, call, atom) {
-						c.OK(key, call.Pos(), "destination.%s is dominated by %s", sel.Sel.Name, what)
+					underLock := func(cond ast.Expr, polarity bool) bool {
+						return implies(cond, polarity, atom) && h.heldNorm(p, cond)["recv.mu"]
+					}
+					if guardedBy(fd.Body, call, atom) && !guardedByEdge(fd.Body, call, underLock) {
+						c.Violation(key, call.Pos(), "destination.%s is guarded by %s, but that test is evaluated before the producer lock is taken: a notification that passed the test and then waited for the lock behind a terminal one is delivered after it", sel.Sel.Name, what)
+					} else if guardedBy(fd.Body, call, atom) {
+						c.OK(key, call.Pos(), "destination.%s is dominated by %s, evaluated with the producer lock held", sel.Sel.Name, what)
 					} else {
 						c.Violation(key, call.Pos(), "destination.%s can be reached without %s: a notification can be delivered after a terminal one (or two terminals can both be delivered)", sel.Sel.Name, what)
 					}
@@ -533,7 +539,7 @@ func C01() *check.Property {
 		Title:    "Observable contract: values, then at most one terminal, then silence",
 		Patterns: CorePatterns,
 		Scope:    []string{ro},
-		Rules:    []check.Rule{ruleGates(), ruleStatusMonotone(), ruleWrap(), ruleSubjectGate(), ruleDropHook(), ruleLockRegion()},
+		Rules:    []check.Rule{ruleGates(), ruleStatusMonotone(), ruleWrap(), ruleSubjectGate(), ruleDropHook(), ruleLockRegion(), ruleSubjectBroadcastLocked()},
 		Explanation: "Static check of the premises of the grammar argument. Every observer reaches a stream only through a subscriber created by the Subscribe it was passed to (WRAP, over every type that implements Observable); a subscriber delivers Next only " +
 			"after testing status == 0 under the producer lock and a terminal only after winning the compare-and-swap 0 -> k (GATE, CFG dominance; LOCK-REGION); the same one level down in observerImpl, whose callbacks are only invoked by the try* helpers, " +
 			"whose call sites are gated; the status word only ever moves away from open (STATUS-MONOTONE, all writes enumerated); subjects gate broadcasts, stores and registrations on status == KindNext under their mutex (SUBJECT-GATE); refusals go to the hook (DROP-HOOK). " +
